@@ -127,7 +127,7 @@ theorem step_othersS (H : Table) {sv : Server} (hwf : RegWF sv) (c : Cmd) :
     · have e : stepOuts H sv c = execOuts sv.store c.now (sv.conn c.id).queue := by simp [stepOuts, h2, hr]
       simp only [stepTouches_def, e]
       rw [exec_eq]; simp only
-      rw [if_neg (by simpa using hr.1), if_neg hr.2.1, if_neg (by simpa using hr.2.2.1), if_neg (by simp [hr.2.2.2])]
+      rw [if_neg (by simpa using hr.1), if_neg hr.2.1, if_neg (by simp [hr.2.2.2]), if_neg (by simpa using hr.2.2.1)]
       have f := execLoop_flaggedR (sv := sv.setConn c.id { (sv.conn c.id) with state := (sv.conn c.id).state + multiCommit -
           (if ((sv.conn c.id).state / 2) % 2 = 1 then multiCommit else 0) }) hs c.now (sv.conn c.id).queue
           [Tok.arr (sv.conn c.id).queue.length]
